@@ -7,7 +7,7 @@ def showOI : Option Int → String | none => "none" | some v => s!"some {v}"
 def showRes : Res → String | .val v => s!"val {v}" | .panic => "panic"
 /-- exact integer arithmetic by the book: the result iff representable and the divisor is non-zero -/
 def specArith (signed : Bool) (op : Arith) (a b : Int) : Option Int :=
-  let t := if signed then I64 else U64
+  let t := if signed then TyI64 else TyU64
   match op with
   | .add => t.chk (a + b) | .sub => t.chk (a - b) | .mul => t.chk (a * b)
   | .div => if b = 0 then none else t.chk (Int.tdiv a b)
